@@ -71,3 +71,20 @@ Proof. exact moves_extends_position. Qed.
 Theorem C16_take_back_is_the_shorter_line : forall (s : position) r l0 l,
   ustep (ustep s (CPosition r (l0 ++ l))) (CPosition r l0) = ustep s (CPosition r l0).
 Proof. exact take_back_is_shorter_line. Qed.
+
+(* ---- the FEN the engine prints loads back to the identical position (and therefore prints the identical FEN) ----
+   Fen.fen_print / fen_parse model Position::fen() and the constructor's parsing loop (tied by the fen_rt correspondence on every
+   position of the generated games and by the UCI-level sessions). *)
+From CV Require Import Chess.FenProofs.
+Local Open Scope Z_scope.
+
+Theorem C16_fen_roundtrip : forall p : position,
+  length (brd p) = 64%nat -> (forall e, ep p = Some e -> (e < 64)%N) -> 0 <= clock p -> 0 <= fullmove p ->
+  fen_parse (fen_print p) = Some p.
+Proof. exact fen_roundtrip. Qed.
+Print Assumptions C16_fen_roundtrip.
+
+Theorem C16_fen_print_parse_print : forall p : position,
+  length (brd p) = 64%nat -> (forall e, ep p = Some e -> (e < 64)%N) -> 0 <= clock p -> 0 <= fullmove p ->
+  option_map fen_print (fen_parse (fen_print p)) = Some (fen_print p).
+Proof. exact fen_print_parse_print. Qed.
